@@ -131,6 +131,12 @@ def main(argv=None):
         if proof["built"]:
             proof["audit"] = core.audit(prop, theorems, meta["modules"])
             proof["scan"] = core.scan_sources(list(meta["modules"]) + list(meta.get("driver_modules", [])))
+            if args.tier == "thorough":
+                # independent re-check of the compiled theorems by the toolchain's kernel re-checker
+                rc, out = core.leanchecker(list(meta["modules"]))
+                proof["leanchecker"] = {"rc": rc, "tail": out[-500:]}
+                if rc != 0:
+                    proof["scan"].append("leanchecker failed: " + out[-300:])
     discharged = [t for t in theorems if proof["built"] and proof["audit"].get(t, {}).get("ok") and not proof["scan"]] \
         if not args.no_build else []
     proof_ok = args.no_build or (len(discharged) == len(theorems))
@@ -229,6 +235,7 @@ def main(argv=None):
             "lean_lines": ctx.lean.lines,
             "exhaustive": bool(ctx.exhaustive),
             "known_findings_hit": sorted(hit),
+            "leanchecker": proof.get("leanchecker"),
             "notes": ctx.notes,
         },
         "assumptions": meta.get("assumptions", []),
